@@ -27,6 +27,9 @@ def items_for(ms):
         "foo::" + name + '!("x");', mod + "::sub::" + name + '!("x");', "x" + mod + "::" + name + '!("x");',
         "a::" + name + '!("x");', "crate::a::" + name + '!("x");',
         name + "!();", name + "!(x);", name + "!(MSG);", name + '!(format!("x"));', name + "![1];",
+        # a configured name without a literal message but with a (non-literal) target / key-values, and ordinary code after it in which a
+        # comma is directly followed by a string literal
+        name + "!(target: AUDIT);", name + "!(target: AUDIT, MSG);", name + "!(k = 1; MSG);", 'out.insert(0, "header");', 'f(a, "b", c);',
         'let s = "' + S.replace('"', '\\"') + '";',
     ]
     # a module path of several segments: every proper suffix and every proper prefix of it is a different path
